@@ -7,6 +7,7 @@
 (*   gaps    [[op]]                               operations after pass 1, 2, ..  (#passes = Len(gaps))           *)
 (*   ready   [[set per descriptor]]               readiness before pass 1, 2, .. (as observed on the real run)    *)
 (*   scripts [ [[op]] per slot ]                  operations of the j-th callback invocation of the slot          *)
+(*   tscripts [[op]]                              operations of the j-th invocation of the timer callback          *)
 (* with op = [k, e, fd, m, os].  The scenario is executed on FdEvents exactly as the driver executes it on the   *)
 (* real loop (an operation that is not Legal is skipped), in EVERY order of ready descriptors that               *)
 (* the specification allows.  At the end of every such behaviour the outcome (per pass: callbacks with the       *)
@@ -14,13 +15,13 @@
 (* scenario order-independent iff all its behaviours print the same outcome (callbacks compared as multisets).   *)
 EXTENDS FdEvents, Json, IOUtils
 Scen == ndJsonDeserialize(IOEnv.SCEN)
-VARIABLES sc, stage, pos, inv, out, cbs
-svars == <<vars, sc, stage, pos, inv, out, cbs>>
+VARIABLES sc, stage, pos, inv, tinv, out, cbs
+svars == <<vars, sc, stage, pos, inv, tinv, out, cbs>>
 S == Scen[sc]
 NPass == Len(S.gaps)
 SetOf(s) == {s[i] : i \in 1..Len(s)}
-OpOf(o) == Op(o.k, o.e, o.fd)
-Keep == UNCHANGED <<sc, inv, out, cbs>>
+OpOf(o) == IF o.k = "reinit" THEN ROp(o.e, o.fd, SetOf(o.m), o.os) ELSE Op(o.k, o.e, o.fd)
+Keep == UNCHANGED <<sc, inv, tinv, out, cbs>>
 Snapshot == [e \in E |-> IF ev[e].st # "alive" THEN "gone" ELSE IF ev[e].fd # 0 /\ closed[ev[e].fd] THEN "closed" ELSE IF ev[e].en THEN "on" ELSE "off"]
 
 SInit ==
@@ -30,8 +31,8 @@ SInit ==
   /\ recs = [r \in RID |-> DeadRec] /\ map = [fd \in FD |-> 0] /\ pool = <<>>
   /\ ready = [fd \in FD |-> {}] /\ closed = [fd \in FD |-> FALSE]
   /\ phase = "idle" /\ rlist = {} /\ cur = NoCur /\ copy = <<>> /\ run = 0 /\ opsLeft = 0 /\ passes = 0
-  /\ pins = {} /\ pollReady = [fd \in FD |-> {}] /\ cbEn = FALSE /\ viol = {}
-  /\ stage = "main" /\ pos = 1 /\ inv = [e \in E |-> 0] /\ out = <<>> /\ cbs = <<>>
+  /\ pins = {} /\ timer = "off" /\ bad = FALSE /\ pollReady = [fd \in FD |-> {}] /\ cbEn = FALSE /\ viol = {}
+  /\ stage = "main" /\ pos = 1 /\ inv = [e \in E |-> 0] /\ tinv = 0 /\ out = <<>> /\ cbs = <<>>
 
 \* one operation; "new" creates an event in a free slot; anything not applicable is skipped
 DoOp(o, in) ==
@@ -39,9 +40,9 @@ DoOp(o, in) ==
   THEN /\ IF ev[o.e].st # "alive"
           THEN ev' = [ev EXCEPT ![o.e] = [st |-> "alive", fd |-> 0, mask |-> SetOf(o.m), os |-> o.os, en |-> FALSE]]
           ELSE ev' = ev
-       /\ UNCHANGED <<recs, map, pool, ready, closed>>
-  ELSE IF o.k \in {"en", "dis", "del", "init", "close"} /\ Legal(OpOf(o), in) THEN Apply(OpOf(o))
-       ELSE UNCHANGED <<ev, recs, map, pool, ready, closed>>
+       /\ UNCHANGED <<recs, map, pool, ready, closed, timer>>
+  ELSE IF o.k \in {"en", "dis", "del", "init", "reinit", "close", "arm"} /\ Legal(OpOf(o), in) THEN Apply(OpOf(o))
+       ELSE UNCHANGED <<ev, recs, map, pool, ready, closed, timer>>
 
 MainList == IF passes = 0 THEN S.setup ELSE S.gaps[passes]
 MainStep ==                                       \* set-up / gap operations, then the environment's readiness, then the next pass
@@ -50,30 +51,32 @@ MainStep ==                                       \* set-up / gap operations, th
      THEN DoOp(MainList[pos], 0) /\ pos' = pos + 1 /\ stage' = stage /\ UNCHANGED passVars /\ Keep
      ELSE IF passes < NPass
           THEN /\ ready' = [fd \in FD |-> IF closed[fd] \/ fd > Len(S.ready[passes + 1]) THEN {} ELSE SetOf(S.ready[passes + 1][fd])]
-               /\ stage' = "poll" /\ pos' = 1 /\ UNCHANGED <<ev, recs, map, pool, closed>> /\ UNCHANGED passVars /\ Keep
+               /\ stage' = "poll" /\ pos' = 1 /\ UNCHANGED <<ev, recs, map, pool, closed, timer>> /\ UNCHANGED passVars /\ Keep
           ELSE stage' = "done" /\ pos' = 1 /\ UNCHANGED vars /\ Keep
 SPollStep == stage = "poll" /\ Poll /\ stage' = "pass" /\ UNCHANGED <<pos>> /\ Keep
 PassOver ==                                       \* pass finished (or the select pass that only found invalid descriptors)
   /\ stage = "pass" /\ phase = "idle" /\ run = 0
   /\ out' = Append(out, [cbs |-> cbs, st |-> Snapshot]) /\ cbs' = <<>> /\ stage' = "main" /\ pos' = 1
-  /\ UNCHANGED <<vars, sc, inv>>
+  /\ UNCHANGED <<vars, sc, inv, tinv>>
+STimer == stage = "pass" /\ TimerCb /\ tinv' = tinv + 1 /\ pos' = 1 /\ UNCHANGED <<sc, stage, inv, out, cbs>>
 SNextFd == stage = "pass" /\ DoNextFd /\ UNCHANGED <<stage, pos>> /\ Keep
 SSub ==
   /\ stage = "pass"
   /\ \E e \in E : /\ Sub(e)
                   /\ IF run' # 0 THEN inv' = [inv EXCEPT ![e] = @ + 1] /\ cbs' = Append(cbs, <<e, cur.mask>>) /\ pos' = 1
                                  ELSE UNCHANGED <<inv, cbs, pos>>
-  /\ UNCHANGED <<sc, stage, out>>
-Script == IF run <= Len(S.scripts) /\ inv[run] <= Len(S.scripts[run]) THEN S.scripts[run][inv[run]] ELSE <<>>
+  /\ UNCHANGED <<sc, stage, out, tinv>>
+Script == IF run = TIMER THEN (IF tinv <= Len(S.tscripts) THEN S.tscripts[tinv] ELSE <<>>)
+          ELSE IF run <= Len(S.scripts) /\ inv[run] <= Len(S.scripts[run]) THEN S.scripts[run][inv[run]] ELSE <<>>
 SCb ==
   /\ stage = "pass" /\ run # 0 /\ viol = {}
   /\ IF pos <= Len(Script)
      THEN /\ DoOp(Script[pos], run) /\ pos' = pos + 1
-          /\ UNCHANGED <<phase, rlist, cur, copy, run, opsLeft, passes, pins, pollReady, cbEn, viol, stage>> /\ Keep
+          /\ UNCHANGED <<phase, rlist, cur, copy, run, opsLeft, passes, pins, bad, pollReady, cbEn, viol, stage>> /\ Keep
      ELSE CbReturn /\ UNCHANGED <<stage, pos>> /\ Keep
 SFinish == stage = "pass" /\ FinishFd /\ UNCHANGED <<stage, pos>> /\ Keep
 SEndPass == stage = "pass" /\ EndPass /\ UNCHANGED <<stage, pos>> /\ Keep
-SNext == MainStep \/ SPollStep \/ PassOver \/ SNextFd \/ SSub \/ SCb \/ SFinish \/ SEndPass
+SNext == MainStep \/ SPollStep \/ PassOver \/ STimer \/ SNextFd \/ SSub \/ SCb \/ SFinish \/ SEndPass
 SSpec == SInit /\ [][SNext]_svars
 Emit == IF stage = "done" THEN PrintT("BEH " \o ToJson([sc |-> sc, out |-> out])) /\ FALSE ELSE TRUE
 =============================================================================
